@@ -32,7 +32,7 @@ VARIABLES reg, cfg, handles, hist, tree
 
 Engines == {1, 2}
 Names == {"n1", "n2"}
-LoaderNames == {"n3"}           \* served by an array loader on every engine
+LoaderNames == {"n3", "pm"}     \* served by an array loader on every engine (pm: p/m, which includes its neighbour p/b)
 FsNames == {"n4", "n5"}         \* served by a file-system loader with two search paths on every engine
 HasPolicy(e) == e = 1           \* engine 2 has no security policy: a sandboxed include fails there
 
@@ -74,8 +74,13 @@ SrcBody(id) ==
       \* an include whose with-values fail to evaluate (error path of the include), before and after a working one
       [] id = 25 -> <<T(<<91>>), Include(LS(NT.n2), Hash(<<LS(NT.a)>>, <<LI(1)>>), TRUE, FALSE, FALSE, FALSE),
                       Include(LS(NT.n2), Hash(<<LS(NT.a), LS(NT.b)>>, <<LI(1), Filt("nofilter", Var("x"), <<>>)>>), TRUE, FALSE, FALSE, FALSE), T(<<93>>)>>
+      \* a template without a name of its own (parsed and kept by the caller) that refers to a neighbour by a relative name:
+      \* there is no directory to look in, whatever the engine loaded last; p/m and p/b are served by the array loader
+      [] id = 26 -> <<T(<<91>>), Include(LS(<<46, 47, 98>>), Lit(Null), FALSE, FALSE, TRUE, FALSE), T(<<93>>), PrintS(Var("x"))>>
+      [] id = 27 -> <<T(<<80, 91>>), Inc(LS(<<46, 47, 98>>)), T(<<93>>)>>
+      [] id = 28 -> <<T(<<66>>), PrintS(Var("x"))>>
 SrcPieces(id) == IF id = 3 THEN RawSyntaxError ELSE Source(SrcBody(id), LMin)
-AllSrc == 1..25
+AllSrc == 1..28
 IsSyntaxError(id) == id = 3
 RefersToN2 == {5, 6, 8, 13, 25}
 SrcFor(n) == IF n = "n1" THEN {1, 2, 3, 4, 5, 6, 8, 10, 12, 13, 14, 15, 16, 18, 23, 25} ELSE {1, 3, 4, 7, 9, 10, 14, 15, 16, 17, 19, 24}     \* no recursion: only n1 refers to n2
@@ -160,7 +165,7 @@ FullNext ==
     /\ Len(hist) < MaxLen
     /\ \/ \E n \in Names : \E s \in SrcFor(n) : Register(1, n, s)
        \/ \E s \in {1, 3, 6} : ParseOnly(1, s)
-       \/ \E s \in {2, 5} : ParseKeep(1, s)
+       \/ \E s \in {2, 5, 26} : ParseKeep(1, s)
        \/ \E n \in Names \cup LoaderNames : \E c \in {1, 2} : DoRender(1, n, c, IF c = 1 THEN "render" ELSE "renderto")
        \/ DoRender(1, "n1", 3, "render")
        \/ \E n \in FsNames : DoRender(1, n, 1, "render")
@@ -185,7 +190,7 @@ NoStaleRender == \A i \in 1..Len(hist) : hist[i].op \in {"render", "renderh"} =>
 Header == [hdr |-> TRUE, prop |-> "C01",
            sources |-> [id \in AllSrc |-> SrcPieces(id)],       \* printed as a JSON array: index id-1
            ctxs |-> [c \in CtxIds |-> CtxOf(c)],
-           loader |-> [n3 |-> LoaderSrc],
+           loader |-> [n3 |-> LoaderSrc, pm |-> 27, pb |-> 28],
            fs |-> <<[n5 |-> 20], [n4 |-> 21, n5 |-> 22]>>,          \* search paths in order: name -> source id
            nopolicy |-> {e \in Engines : ~HasPolicy(e)},
            policy |-> [filters |-> {"upper", "default", "escape"}, functions |-> {"parent", "range"}]]
